@@ -161,6 +161,11 @@ pub fn expand<T: AsRef<Path>>(path: T) -> RvResult<PathBuf> {
                 Component::Normal(y) => {
                     let mut str = String::new();
                     let seg = y.to_string()?;
+
+                    // A trailing $ doesn't name a variable to expand
+                    if seg.ends_with('$') {
+                        return Err(PathError::invalid_expansion(seg).into());
+                    }
                     let mut chars = seg.chars().peekable();
 
                     while chars.peek().is_some() {
